@@ -314,6 +314,13 @@ def run(ctx):
                 cm = as_cmp(payload, True)
                 if cm:
                     facts.append((cm, body.blocks[bb]['st'][-1].get('ln', '') if body.blocks[bb]['st'] else ''))
+                else:
+                    # `[(a, b), ..].into_iter().all(|(x, y)| (x - y).abs() < EPS)`: one comparison per listed pair
+                    from lib import unroll_all
+                    un = unroll_all(ctx.F, body, payload)
+                    for el in un or []:
+                        for cm2 in el.values():
+                            facts.append((cm2, body.blocks[bb]['t'].get('ln', '')))
             here = set()
             for cm, ln in facts:
                 o = orient(cm, lambda e: not is_eps(e))
